@@ -60,6 +60,9 @@ def run_one(tape: Tape, tier: str, opts: dict) -> dict:
     seeds = (tape.seed32("seed_py"), tape.seed32("seed_np"), tape.seed32("seed_torch"))
     world = World("c26")
     world.uuid_seed = tape.int(1, 1000, "uuid_seed")
+    # user-space write buffer of the autosave file (CPython: st_blksize of the file system, 4 KiB ... 1 MiB): whatever is
+    # still in it when the process dies never reaches the disk
+    world.buffer_size = tape.choice([8192, 8192, 512, 4096, 65536, 1 << 20], "write_buffer")
     sample: dict[str, Any] = {}
     noise_kind = "none" if not cfg.get("noise") else ("spam" if "state_prep_error" in cfg["noise"] else "lindblad")
     out: dict[str, Any] = {"scenario": {"register": case["scn"]["atoms"], "ops": case["scn"]["ops"], "slm": case["scn"].get("slm"), "dmm": case["scn"].get("dmm"), "cfg": {k: v for k, v in cfg.items()}, "solver": case["solver"], "perm": [case["perm_kind"], case["perm"]]}}
@@ -237,7 +240,7 @@ def _explore(H: C.History, tape: Tape, tier: str, world: World, case: dict, ref:
         if rs.error is not None:
             H.viol("C26.resume-raises", f"{rs.error_site}", f"resume from {where} raised {rs.error!r}", world=C.describe_world(w, base))
             continue
-        d = R.compare(ref.results, rs.results)
+        d = C.compare_resumed(case, ref, rs, rng)
         if d:
             H.viol("C26.resume-differs", C27_dclass(d), f"resume from {where} differs from the uninterrupted run: {d[:3]}", world=C.describe_world(w, base))
             continue
